@@ -46,7 +46,7 @@ ASSUMPTIONS = [
     "not generated",
     "the transformed program is the FortranWriter text of the transformed tree "
     "re-read by FortranReader; observables = all arguments of the driver (n, m, k, r, "
-    "a, b, q, w, og = final value of module variable g); caller locals t and i are "
+    "a, b, q, p, w, og = final value of module variable g); caller locals t and i are "
     "observed through `r = r + 2*t + 3*i`; a location left undefined by the original "
     "is not compared",
     "exceptions other than TransformationError raised by InlineTrans are counted, "
@@ -137,6 +137,8 @@ def make_args(nval, kval):
         I.make_array("q", "int", [(1, mval), (1, mval)],
                      [1000 + 100 * i + 10 * j + 3
                       for j in range(1, mval + 1) for i in range(1, mval + 1)]),
+        I.make_array("p", "int", [(2, 4), (0, 3)],
+                     [2000 + 100 * i + 10 * j + 4 for j in range(0, 4) for i in range(2, 5)]),
         wval,
         I.make_scalar("og", "int", -1),
     ]
